@@ -275,6 +275,121 @@ theorem constL_opnd (K : PCtx) (wf : K.WF) (e : X.Expr) (hc : isConstL K.ρ e = 
     rw [hcc] at this
     exact (Option.some.inj this)
 
+/-! ### System call 2 (input) as an expression -/
+
+theorem execX_syscall2 (K : PCtx) (wf : K.WF) (nm : String) (args : List X.Expr) (hp : ∀ e ∈ args, pureE e = true)
+    (fuel : Nat) (σ : X.St) :
+    ExecX false K (.call 2 nm (optArgsOf K.ρ args)) σ (X.eval fuel K.xc (.syscall 2 args) σ) := by
+  intro gs code gs' i a b mem hg hat hr hsz hnl hci
+  obtain ⟨kind, hk, hseq⟩ := genExpr_call_inv _ _ _ _ _ _ _ _ hg
+  obtain ⟨_, hk'⟩ := exprCallKind_inv _ _ _ _ _ _ hk
+  rcases hk' with ⟨_, hkind⟩ | ⟨h1, _⟩
+  rotate_left
+  · exact absurd h1 (by decide)
+  subst hkind
+  cases fuel with
+  | zero => unfold X.eval; trivial
+  | succ f =>
+    cases ht : X.tick K.xc σ with
+    | none => unfold X.eval; rw [ht]; trivial
+    | some st =>
+      have hs := tick_same _ _ _ ht
+      unfold X.eval
+      rw [ht]
+      simp only
+      split
+      · trivial
+      · split
+        · trivial
+        · cases hev : X.evalArgs f K.xc args st with
+          | undef w => simp only [Res.bind]; trivial
+          | exit c s => exact absurd hev (evalArgs_pure_no_exit K.xc args f st c s hp)
+          | ok vs s =>
+            simp only [Res.bind]
+            have hs2 := evalArgs_pure K.xc args f st s vs hp hev
+            have hio : s.io = σ.io := by rw [hs2.2.2.2.1, hs.2.2.2.1]
+            cases hd : X.doSyscall 2 vs s with
+            | undef w => trivial
+            | exit cd s' =>
+              simp only
+              obtain ⟨ws, hws⟩ := doSyscall_ints _ vs s (by rw [hd]; intro w h; simp at h)
+              subst hws
+              have := exec_syscall K wf 2 (by omega) args f st s ws hp hev gs code gs' i a b mem σ.io hio hseq hat
+                (hr.same hs) hsz hnl hci
+              have h2 : (BitVec.ofNat 32 2 : Word) = 2 := rfl
+              rw [h2, hd] at this
+              obtain ⟨c, st1, ex⟩ := this
+              have hs' := doSyscall_exit_state _ _ _ _ _ hd
+              refine ⟨c, ?_, ?_⟩
+              · rw [hs', hio]; exact st1
+              · rw [hs', hio]; exact ex
+            | ok r s' =>
+              simp only
+              obtain ⟨ws, hws⟩ := doSyscall_ints _ vs s (by rw [hd]; intro w h; simp at h)
+              subst hws
+              have := exec_syscall K wf 2 (by omega) args f st s ws hp hev gs code gs' i a b mem σ.io hio hseq hat
+                (hr.same hs) hsz hnl hci
+              have h2 : (BitVec.ofNat 32 2 : Word) = 2 := rfl
+              rw [h2, hd] at this
+              obtain ⟨a', b', mem', st1, rep1, hres, frm⟩ := this
+              cases r with
+              | none => trivial
+              | some w =>
+                have := hres w rfl
+                subst this
+                refine ⟨b', mem', st1, ?_, frm⟩
+                have hst := doSyscall_state _ _ _ _ _ hd
+                rw [hst]
+                exact (rep1.same hs2).setIo _
+
+/-- A call through a constant whose value is 2 evaluates like `2(args)`. -/
+theorem eval_valcall2 (K : PCtx) (g : String) (args : List X.Expr) (hρ : K.ρ g = some 2) (fuel : Nat) (σ : X.St) (mem : Mem)
+    (hr : Rep K σ mem) : X.eval fuel K.xc (.call g args) σ = X.eval fuel K.xc (.syscall 2 args) σ := by
+  cases fuel with
+  | zero => unfold X.eval; rfl
+  | succ f =>
+    cases ht : X.tick K.xc σ with
+    | none => unfold X.eval; rw [ht]
+    | some st =>
+      have hres := resolve_val K.xc st g 2 ((hr.same (tick_same _ _ _ ht)).vals g 2 hρ)
+      conv => lhs; unfold X.eval
+      conv => rhs; unfold X.eval
+      rw [ht]
+      simp only [hres]
+      rfl
+
+theorem execX_sys (K : PCtx) (wf : K.WF) (e : X.Expr) (h : sysE K.ρ e = true) (fuel : Nat) (σ : X.St) :
+    ExecX false K (optExpr (annotate K.ρ e)) σ (X.eval fuel K.xc e σ) := by
+  cases e with
+  | syscall id args =>
+    simp only [sysE, Bool.and_eq_true, decide_eq_true_eq, List.all_eq_true] at h
+    obtain ⟨hid, hp⟩ := h
+    subst hid
+    have hopt : optExpr (annotate K.ρ (.syscall 2 args)) = .call 2 "" (optArgsOf K.ρ args) := by
+      simp only [annotate, optExpr_call, annotateL_map, optArgs_map, sysId_small 2 (by omega)]
+      rfl
+    rw [hopt]
+    exact execX_syscall2 K wf "" args hp fuel σ
+  | call g args =>
+    simp only [sysE, Bool.and_eq_true, decide_eq_true_eq, List.all_eq_true] at h
+    obtain ⟨hρ, hp⟩ := h
+    have hopt : optExpr (annotate K.ρ (.call g args)) = .call 2 g (optArgsOf K.ρ args) := by
+      rw [annot_call]
+      unfold sysOf
+      rw [hρ]
+      rfl
+    rw [hopt]
+    intro gs code gs' i a b mem hg hat hr hsz hnl hci
+    rw [eval_valcall2 K g args hρ fuel σ mem hr]
+    exact execX_syscall2 K wf g args hp fuel σ gs code gs' i a b mem hg hat hr hsz hnl hci
+  | num _ => simp [sysE] at h
+  | bool _ => simp [sysE] at h
+  | name _ => simp [sysE] at h
+  | str _ => simp [sysE] at h
+  | sub _ _ => simp [sysE] at h
+  | un _ _ => simp [sysE] at h
+  | bin _ _ _ => simp [sysE] at h
+
 /-! ### The class -/
 
 theorem ip_const_none (ρ : String → Option Word) (callOk : X.Expr → Bool) :
@@ -289,12 +404,12 @@ theorem ip_const_none (ρ : String → Option Word) (callOk : X.Expr → Bool) :
     · rw [ip_const_none ρ callOk r hr]; cases (annotate ρ l).const <;> rfl
     · rw [ip_const_none ρ callOk l hl]
   | .call _ _, _ => by simp [annotate]
+  | .syscall _ _, _ => by simp [annotate]
   | .num _, h => by simp [ipE] at h
   | .bool _, h => by simp [ipE] at h
   | .name _, h => by simp [ipE] at h
   | .str _, h => by simp [ipE] at h
   | .sub _ _, h => by simp [ipE] at h
-  | .syscall _ _, h => by simp [ipE] at h
 
 /-- The optimised tree of an expression of the class needs areg and is not a constant. -/
 theorem ip_opt_facts (ρ : String → Option Word) (callOk : X.Expr → Bool) (e : X.Expr) (h : ipE ρ callOk e = true) :
@@ -312,16 +427,19 @@ theorem ip_opt_facts (ρ : String → Option Word) (callOk : X.Expr → Bool) (e
   | call g args =>
     rw [annot_call]
     simp [needsAReg, AExpr.isConst, AExpr.isConstZero]
+  | syscall id args =>
+    simp only [annotate, optExpr_call]
+    simp [needsAReg, AExpr.isConst, AExpr.isConstZero]
   | num _ => simp [ipE] at h
   | bool _ => simp [ipE] at h
   | name _ => simp [ipE] at h
   | str _ => simp [ipE] at h
   | sub _ _ => simp [ipE] at h
-  | syscall _ _ => simp [ipE] at h
 
 theorem ip_containsCall (ρ : String → Option Word) (callOk : X.Expr → Bool) :
     (e : X.Expr) → ipE ρ callOk e = true → containsCall (optExpr (annotate ρ e)) = true
   | .call g args, _ => by rw [annot_call]; rfl
+  | .syscall id args, _ => by simp only [annotate, optExpr_call]; rfl
   | .un op x, h => by
     simp only [ipE] at h
     have hcn := ip_const_none ρ callOk x h
@@ -344,7 +462,6 @@ theorem ip_containsCall (ρ : String → Option Word) (callOk : X.Expr → Bool)
   | .name _, h => by simp [ipE] at h
   | .str _, h => by simp [ipE] at h
   | .sub _ _, h => by simp [ipE] at h
-  | .syscall _ _, h => by simp [ipE] at h
 
 theorem ExecX.undef {t : Bool} {K : PCtx} {e' : AExpr} {σ : X.St} (w : String) : ExecX t K e' σ (.undef w) :=
   fun _ _ _ _ _ _ _ _ _ _ _ _ _ => trivial
@@ -361,6 +478,373 @@ theorem constL_needsA (ρ : String → Option Word) (e : X.Expr) (hc : isConstL 
 theorem eval_zero_undef (xc : X.Ctx) (e : X.Expr) (σ : X.St) : ∃ w, X.eval 0 xc e σ = .undef w := by
   unfold X.eval; exact ⟨_, rfl⟩
 
+/-! ### One actual with a call, all the others constants -/
+
+theorem genCallActuals_skip (ctx : Xcmp.Ctx) : ∀ (pre rest : List AExpr) (gs gs' : GS) (code : Code),
+    (∀ x ∈ pre, containsCall x = false) → genCallActuals ctx (pre ++ rest) gs = .ok (code, gs') →
+    genCallActuals ctx rest gs = .ok (code, gs') := by
+  intro pre
+  induction pre with
+  | nil => intro rest gs gs' code _ h; simpa using h
+  | cons x pre' ih =>
+    intro rest gs gs' code hn h
+    rcases genCallActuals_cons_inv _ _ _ _ _ _ h with ⟨hc, _⟩ | ⟨_, h2⟩
+    · rw [hn x (by simp)] at hc; simp at hc
+    · exact ih rest gs gs' code (fun y hy => hn y (by simp [hy])) h2
+
+theorem countCalls_append (l1 l2 : List AExpr) : countCalls (l1 ++ l2) = countCalls l1 + countCalls l2 := by
+  induction l1 with
+  | nil => simp [countCalls]
+  | cons a rest ih => simp only [List.cons_append, countCalls, ih]; omega
+
+theorem savedOk_skip (K : PCtx) (mem : Mem) : ∀ (pre : List AExpr) (P1 : List (Word → Prop)) (rest : List AExpr)
+    (P2 : List (Word → Prop)) (sv : Nat), pre.length = P1.length → (∀ x ∈ pre, containsCall x = false) →
+    SavedOk K mem rest P2 sv → SavedOk K mem (pre ++ rest) (P1 ++ P2) sv := by
+  intro pre
+  induction pre with
+  | nil => intro P1 rest P2 sv hl _ h; cases P1 with | nil => simpa using h | cons _ _ => simp at hl
+  | cons x pre' ih =>
+    intro P1 rest P2 sv hl hn h
+    cases P1 with
+    | nil => simp at hl
+    | cons p P1' =>
+      simp only [List.cons_append]
+      unfold SavedOk
+      rw [if_neg (by rw [hn x (by simp)]; simp)]
+      exact ih P1' rest P2 sv (by simpa using hl) (fun y hy => hn y (by simp [hy])) h
+
+theorem loadSpec_append (K : PCtx) (σ : X.St) : ∀ (l1 : List AExpr) (P1 : List (Word → Prop)) (l2 : List AExpr)
+    (P2 : List (Word → Prop)), l1.length = P1.length → LoadSpec K σ l1 P1 → LoadSpec K σ l2 P2 →
+    LoadSpec K σ (l1 ++ l2) (P1 ++ P2) := by
+  intro l1
+  induction l1 with
+  | nil => intro P1 l2 P2 hl _ h; cases P1 with | nil => simpa using h | cons _ _ => simp at hl
+  | cons x l1' ih =>
+    intro P1 l2 P2 hl h1 h2
+    cases P1 with
+    | nil => simp at hl
+    | cons p P1' =>
+      simp only [List.cons_append, LoadSpec] at h1 ⊢
+      exact ⟨h1.1, ih P1' l2 P2 (by simpa using hl) h1.2 h2⟩
+
+theorem Res.bind_ok_id {α : Type} (r : Res α) : (r.bind fun a s => .ok a s) = r := by
+  cases r <;> rfl
+
+/-- The constants in front of the actual with the call: evaluating them changes nothing. -/
+theorem evalArgs_constPrefix (K : PCtx) (wf : K.WF) : ∀ (pre rest : List X.Expr) (f : Nat) (st : X.St),
+    (∀ c ∈ pre, isConstL K.ρ c = true) → ValsOk K.ρ K.xc st →
+    (∃ w, X.evalArgs f K.xc (pre ++ rest) st = .undef w) ∨
+    ∃ vs1 s1, pre.length ≤ f ∧ vs1.length = pre.length ∧ SameVars st s1 ∧
+      (∀ σ, LoadSpec K σ (optArgsOf K.ρ pre) (vs1.map K.VRep)) ∧
+      X.evalArgs f K.xc (pre ++ rest) st
+        = (X.evalArgs (f - pre.length) K.xc rest s1).bind (fun vs2 s => .ok (vs1 ++ vs2) s) := by
+  intro pre
+  induction pre with
+  | nil =>
+    intro rest f st _ _
+    refine Or.inr ⟨[], st, Nat.zero_le _, rfl, SameVars.refl _, fun _ => trivial, ?_⟩
+    simp only [List.nil_append, List.length_nil, Nat.sub_zero]
+    exact (Res.bind_ok_id _).symm
+  | cons c pre' ih =>
+    intro rest f st hc hv
+    cases f with
+    | zero => exact Or.inl ⟨_, by rw [evalArgs_zero]⟩
+    | succ f' =>
+      simp only [List.cons_append]
+      rw [evalArgs_cons_eq]
+      have hcc := hc c (by simp)
+      have hpc := constL_pure K.ρ c hcc
+      cases he : X.eval f' K.xc c st with
+      | undef w => exact Or.inl ⟨w, rfl⟩
+      | exit cd s0 => exact absurd he (eval_pure_no_exit K.xc f' c st cd s0 hpc)
+      | ok v s0 =>
+        have hs0 := eval_pure K.xc _ _ _ _ _ hpc he
+        rcases ih rest f' s0 (fun x hx => hc x (by simp [hx])) (hv.same hs0) with ⟨w, hw⟩ | ⟨vs1, s1, hle, hlen, hs1, hspec, heq⟩
+        · exact Or.inl ⟨w, by simp only [Res.bind]; rw [hw]⟩
+        · refine Or.inr ⟨v :: vs1, s1, by simp only [List.length_cons]; omega, by simp [hlen], hs0.trans hs1, fun σ => ?_, ?_⟩
+          · obtain ⟨w, hw, hA⟩ := execA_constL K wf c hcc f' st s0 v hv he σ
+            simp only [optArgsOf, List.map_cons, LoadSpec]
+            exact ⟨fun _ => by rw [hw]; exact hA.toP rfl, hspec σ⟩
+          · simp only [Res.bind]
+            rw [heq]
+            simp only [List.length_cons, Nat.succ_sub_succ_eq_sub]
+            cases X.evalArgs (f' - pre'.length) K.xc rest s1 <;> rfl
+
+/-- The two passes over the actuals of a call (`genCallActuals`, `loadActuals`) do what evaluating
+    the actuals does: every value ends up in its parameter slot. -/
+structure ActPhase (K : PCtx) (po : Nat) (f : Nat) (args : List X.Expr) : Prop where
+  run : ∀ (st : X.St) (gs : GS) (c1 : Code) (gs1 : GS) (c2 : Code) (gs2 : GS) (i : Nat) (a b : Word) (mem : Mem),
+    genCallActuals K.ctx (optArgsOf K.ρ args) { gs with size := gs.offset } = .ok (c1, gs1) →
+    loadActuals K.ctx (optArgsOf K.ρ args) po gs.offset
+      (bumpN (countCalls (optArgsOf K.ρ args)) { gs1 with offset := gs.offset }) = .ok (c2, gs2) →
+    At K.env.ds i (K.low c1 ++ K.low c2) → Rep K st mem →
+    gs2.size + (args.length + po) ≤ K.S → K.nlocals ≤ gs.offset → ConstsIn K gs2 →
+    match X.evalArgs f K.xc args st with
+    | .ok vs s => ∃ a' b' mem', Steps K.env (cfg i a b mem) st.io (cfg (i + (K.low c1).length + (K.low c2).length) a' b' mem') s.io ∧
+        Rep K s mem' ∧ (∀ k (hk : k < vs.length), K.VRep vs[k] (mem'.read (K.sp + po + k))) ∧
+        FrmC K gs.offset K.S mem mem'
+    | .exit cd s => ∃ c, Steps K.env (cfg i a b mem) st.io c s.io ∧ Exit K.env c s.io cd
+    | .undef _ => True
+
+/-- The value of an expression of the class is an integer. -/
+theorem eval_ip_int (ρ : String → Option Word) (callOk : X.Expr → Bool) (xc : X.Ctx) (fuel : Nat) (e : X.Expr) (σ σ' : X.St)
+    (r : ArrRef) (hip : ipE ρ callOk e = true) (h : X.eval fuel xc e σ = .ok (.arr r) σ') : False := by
+  cases fuel with
+  | zero => unfold X.eval at h; simp at h
+  | succ f =>
+    cases e with
+    | call g args => exact eval_call_int xc (f + 1) g args σ σ' r h
+    | syscall id args =>
+      unfold X.eval at h
+      cases ht : X.tick xc σ with
+      | none => rw [ht] at h; simp at h
+      | some st =>
+        rw [ht] at h
+        simp only at h
+        split at h
+        · simp at h
+        · split at h
+          · simp at h
+          · obtain ⟨vs, s1, _, h2⟩ := bind_ok_inv _ _ _ _ h
+            obtain ⟨r', s2, _, h4⟩ := bind_ok_inv _ _ _ _ h2
+            split at h4 <;> simp at h4
+    | un op x =>
+      cases op with
+      | neg => obtain ⟨_, _, _, _, h3⟩ := eval_neg _ _ _ _ _ _ h; simp at h3
+      | not => obtain ⟨_, _, _, _, _, h3⟩ := eval_not _ _ _ _ _ _ h; simp at h3
+    | bin op l r' =>
+      simp only [ipE, Bool.and_eq_true] at hip
+      obtain ⟨_, _, _, _, _, _, _, _, _, h5⟩ := eval_arith _ _ _ _ _ _ _ _ hip.1 h
+      simp at h5
+    | num _ => simp [ipE] at hip
+    | bool _ => simp [ipE] at hip
+    | name _ => simp [ipE] at hip
+    | str _ => simp [ipE] at hip
+    | sub _ _ => simp [ipE] at hip
+
+/-- **One actual with a call (of any callee), all others constants**: the call's value is parked,
+    then every actual is stored into its parameter slot; the constants do not look at the state. -/
+theorem actPhase_one (K : PCtx) (wf : K.WF) (po : Nat) (F : Nat) (callOk : X.Expr → Bool)
+    (pre : List X.Expr) (e : X.Expr) (post : List X.Expr)
+    (hpre : ∀ c ∈ pre, isConstL K.ρ c = true) (hpost : ∀ c ∈ post, isConstL K.ρ c = true)
+    (hip : ipE K.ρ callOk e = true)
+    (hE : ∀ fuel, fuel ≤ F → ∀ σ, ExecX false K (optExpr (annotate K.ρ e)) σ (X.eval fuel K.xc e σ))
+    (f : Nat) (hf : f ≤ F) : ActPhase K po f (pre ++ e :: post) := by
+  refine ⟨fun st gs c1 gs1 c2 gs2 i a b mem h1 h2 hat hr hb hnl hci => ?_⟩
+  have hargs : optArgsOf K.ρ (pre ++ e :: post) = optArgsOf K.ρ pre ++ optExpr (annotate K.ρ e) :: optArgsOf K.ρ post := by
+    simp [optArgsOf]
+  have hcc : containsCall (optExpr (annotate K.ρ e)) = true := ip_containsCall K.ρ callOk e hip
+  have hprenc : ∀ x ∈ optArgsOf K.ρ pre, containsCall x = false :=
+    optArgsOf_noCall K.ρ pre (fun c hc => constL_pure K.ρ c (hpre c hc))
+  have hpostnc : ∀ x ∈ optArgsOf K.ρ post, containsCall x = false :=
+    optArgsOf_noCall K.ρ post (fun c hc => constL_pure K.ρ c (hpost c hc))
+  have hcnt : countCalls (optArgsOf K.ρ (pre ++ e :: post)) = 1 := by
+    rw [hargs, countCalls_append, (genCallActuals_noCall K.ctx _ gs hprenc).2]
+    simp only [countCalls, hcc, if_true]
+    rw [(genCallActuals_noCall K.ctx _ gs hpostnc).2]
+  have hlen : (pre ++ e :: post).length = pre.length + (post.length + 1) := by simp
+  rw [hcnt] at h2
+  rw [hargs] at h1 h2
+  have h1' := genCallActuals_skip K.ctx _ _ _ _ _ hprenc h1
+  obtain ⟨cc, g1, cs, hgc, hgrest, hc1⟩ : ∃ cc g1 cs,
+      genExpr K.ctx (optExpr (annotate K.ρ e)) .A { gs with size := gs.offset } = .ok (cc, g1) ∧
+      genCallActuals K.ctx (optArgsOf K.ρ post)
+        { g1 with offset := g1.offset + 1, size := max g1.size (g1.offset + 1) } = .ok (cs, gs1) ∧
+      c1 = cc ++ [iLDBM SP_OFFSET, IDir.fb FbKind.stai K.ctx.frame (-(g1.offset : Int))] ++ cs := by
+    rcases genCallActuals_cons_inv _ _ _ _ _ _ h1' with ⟨_, cc, g1, cs, h⟩ | ⟨hn, _⟩
+    · exact ⟨cc, g1, cs, h⟩
+    · rw [hcc] at hn; simp at hn
+  obtain ⟨hcs0, _⟩ := genCallActuals_noCall K.ctx (optArgsOf K.ρ post)
+    { g1 with offset := g1.offset + 1, size := max g1.size (g1.offset + 1) } hpostnc
+  rw [hcs0] at hgrest
+  simp only [Except.ok.injEq, Prod.mk.injEq] at hgrest
+  obtain ⟨hcse, hgs1⟩ := hgrest
+  subst hcse
+  obtain ⟨e1o, e1s, _, e1c⟩ := genExpr_eff _ _ _ _ _ _ hgc
+  simp only at e1o e1s e1c
+  simp only [bumpN] at h2
+  obtain ⟨e2o, e2s, _, e2c⟩ := loadActuals_eff _ _ _ _ _ _ _ h2
+  rw [← hgs1] at e2o e2s e2c h2
+  simp only at e2o e2s e2c h2
+  subst hc1
+  simp only [low_append, List.append_assoc, List.append_nil] at hat ⊢
+  have hcig1 : ConstsIn K g1 := fun x hx => hci x (e2c x hx)
+  have hl2 : K.low [iLDBM SP_OFFSET, IDir.fb FbKind.stai K.ctx.frame (-(g1.offset : Int))]
+      = [.imm 0x1 1, .imm 0x8 ((K.S : Int) - 1 + -(g1.offset : Int))] := rfl
+  rw [hl2] at hat ⊢
+  -- the constants in front
+  rcases evalArgs_constPrefix K wf pre (e :: post) f st hpre hr.valsOk with ⟨w, hw⟩ | ⟨vs1, s1, hle, hlen1, hs1, hspec1, heq⟩
+  · rw [hw]; trivial
+  rw [heq]
+  cases hfn : f - pre.length with
+  | zero => rw [evalArgs_zero]; trivial
+  | succ f0 =>
+  rw [evalArgs_cons_eq]
+  have hr1 : Rep K s1 mem := hr.same hs1
+  have hio1 : s1.io = st.io := hs1.2.2.2.1
+  -- the actual with the call
+  have hXr := hE f0 (by omega) s1 { gs with size := gs.offset } cc g1 i a b mem hgc hat.left hr1 (by omega) hnl hcig1
+  cases heval : X.eval f0 K.xc e s1 with
+  | undef w => simp only [Res.bind]
+  | exit cd s2 =>
+    rw [heval] at hXr
+    simp only [Res.bind]
+    obtain ⟨c, st', he⟩ := hXr
+    rw [hio1] at st'
+    exact ⟨c, st', he⟩
+  | ok v s2 =>
+    rw [heval] at hXr
+    simp only [Res.bind]
+    cases v with
+    | arr r => exact (eval_ip_int K.ρ callOk K.xc f0 e s1 s2 r hip heval).elim
+    | int w =>
+    obtain ⟨b1, mem1, st1, rep1, frmE⟩ := hXr
+    rw [hio1] at st1
+    -- park the value
+    have hoff : g1.offset < K.S := by omega
+    have hld := hat.right.left.get 0 _ rfl
+    have hst := hat.right.left.get 1 _ rfl
+    simp only [Nat.add_zero] at hld hst
+    have sA := Step.ldbm (env := K.env) (cfg (i + (K.low cc).length) w b1 mem1) s2.io 1 _ hld (ld_one mem1)
+    have hslot : (K.slot g1.offset : Int) = (K.sp : Int) + (K.S : Int) - 1 + (-(g1.offset : Int)) := by
+      unfold PCtx.slot; omega
+    have hadr := slot_addr K.sp K.S (-(g1.offset : Int)) (K.slot g1.offset) hslot
+    obtain ⟨hsl1, hsl2⟩ := wf.slot_ok g1.offset hoff
+    have hsto : IAm.store K.env mem1 (mem1.read 1 + IAm.W ((K.S : Int) - 1 + -(g1.offset : Int))) w
+        = some (mem1.write (K.slot g1.offset) w) := by
+      rw [rep1.sp, hadr]; exact store_ofNat _ _ _ _ hsl1 hsl2
+    have hne1 : (mem1.read 1 + IAm.W ((K.S : Int) - 1 + -(g1.offset : Int))).toNat ≠ 1 := by
+      rw [rep1.sp, hadr]
+      exact ofNat_toNat_ne_one _ (by have := wf.sp_ge; unfold PCtx.slot; omega) hsl1
+    have sB := Step.stai (env := K.env) (cfg (i + (K.low cc).length + 1) w (mem1.read 1) mem1) s2.io _ _ hst hsto hne1
+    have frm2 : Frm K g1.offset (g1.offset + 1) mem1 (mem1.write (K.slot g1.offset) w) := by
+      intro ad had
+      rw [Mem.read_write_other]
+      exact fun e => had g1.offset (Nat.le_refl _) (by omega) e.symm
+    have rep2 := rep1.frame wf frm2 (by omega) (by omega)
+    -- the constants behind
+    cases hpe : X.evalArgs f0 K.xc post s2 with
+    | undef w' => simp only [Res.bind]
+    | exit c s => exact absurd hpe (evalArgs_pure_no_exit K.xc post f0 s2 c s (fun x hx => constL_pure K.ρ x (hpost x hx)))
+    | ok vs3 s =>
+      simp only [Res.bind]
+      obtain ⟨hss, hlv, hspec3⟩ := constLs_specs K wf post f0 s2 s vs3 hpost rep2.valsOk hpe
+      have hlp : (optArgsOf K.ρ pre).length = (vs1.map K.VRep).length := by simp [optArgsOf, hlen1]
+      have hload : LoadSpec K s2 (optArgsOf K.ρ pre ++ optExpr (annotate K.ρ e) :: optArgsOf K.ρ post)
+          ((vs1 ++ Val.int w :: vs3).map K.VRep) := by
+        rw [List.map_append]
+        apply loadSpec_append K s2 _ _ _ _ hlp (hspec1 s2)
+        simp only [List.map_cons, LoadSpec]
+        exact ⟨fun h => by rw [hcc] at h; simp at h, hspec3 s2⟩
+      have hsv : SavedOk K (mem1.write (K.slot g1.offset) w)
+          (optArgsOf K.ρ pre ++ optExpr (annotate K.ρ e) :: optArgsOf K.ρ post)
+          ((vs1 ++ Val.int w :: vs3).map K.VRep) gs.offset := by
+        rw [List.map_append]
+        apply savedOk_skip K _ _ _ _ _ _ hlp hprenc
+        simp only [List.map_cons]
+        unfold SavedOk
+        rw [if_pos hcc]
+        refine ⟨?_, savedOk_noCall _ _ _ _ _ hpostnc⟩
+        rw [← e1o]
+        exact (Mem.read_write_same _ _ _ hsl1 : _ = w)
+      have hlenW : (optArgsOf K.ρ pre ++ optExpr (annotate K.ρ e) :: optArgsOf K.ρ post).length
+          = ((vs1 ++ Val.int w :: vs3).map K.VRep).length := by
+        simp [optArgsOf, hlv, hlen1]
+      have hlenA : (optArgsOf K.ρ pre ++ optExpr (annotate K.ρ e) :: optArgsOf K.ρ post).length
+          = pre.length + (post.length + 1) := by simp [optArgsOf]
+      obtain ⟨a3, b3, mem3, st3, rep3, hvals, _, frm3⟩ := exec_loadItems K wf s2 _ _ hlenW hload
+        po gs.offset _ c2 gs2 (i + (K.low cc).length + 1 + 1) w (mem1.read 1)
+        (mem1.write (K.slot g1.offset) w) h2
+        (by have := hat.right.right; simpa [Nat.add_assoc] using this) rep2 hsv
+        (by simp only [countCalls_append, (genCallActuals_noCall K.ctx _ gs hprenc).2, countCalls, hcc, if_true,
+              (genCallActuals_noCall K.ctx _ gs hpostnc).2]; omega)
+        (by rw [hlenA]; rw [hlen] at hb; omega)
+        (by simp only; omega)
+        (by simp only; omega) hci
+      have hio : s.io = s2.io := hss.2.2.2.1
+      refine ⟨a3, b3, mem3, ?_, rep3.same hss, ?_, ?_⟩
+      · have : i + ((K.low cc).length + [Dir.imm 1 1, Dir.imm 8 ((K.S : Int) - 1 + -(g1.offset : Int))].length) + (K.low c2).length
+            = i + (K.low cc).length + 1 + 1 + (K.low c2).length := by
+          simp only [List.length_cons, List.length_nil]; omega
+        simp only [List.length_append]
+        rw [this, hio]
+        exact st1.trans (Steps.step _ _ _ _ _ _ sA (Steps.step _ _ _ _ _ _ sB st3))
+      · intro k hk
+        have := hvals k (by simpa using hk)
+        simp only [List.getElem_map] at this
+        exact this
+      · have f1 : FrmC K gs.offset K.S mem mem1 := frmE
+        have f2 : FrmC K gs.offset K.S mem1 (mem1.write (K.slot g1.offset) w) :=
+          frm2.toC.mono (by rw [e1o]; exact Nat.le_refl _) hoff
+        have f3 : FrmC K gs.offset K.S (mem1.write (K.slot g1.offset) w) mem3 :=
+          frm3.mono (by simp only; omega) (Nat.le_refl _)
+        exact (f1.trans f2).trans f3
+
+/-- A user call whose actuals are handled by `ActPhase`. -/
+theorem argsOK_of_phase {G : GCtx} (ok : G.OK) {pi : PInfo} (hpi : pi ∈ G.procs) (sp dep : Nat) (hi : Nat → Word)
+    (hlo : G.lo ≤ sp) (hspv : sp + G.S pi + pi.po + pi.p.formals.length ≤ G.spv + 1) (hstack : G.spv ≤ sp + dep * G.smax)
+    (f : Nat) (args : List X.Expr) (hP : ∀ po, ActPhase (KOf G pi sp dep hi) po f args) : ArgsOK G pi sp dep hi f args := by
+  refine ⟨fun hcs pj hpj st gs code gs' i a b mem hgen hat hr hsz hnl hci => ?_⟩
+  obtain ⟨c1, gs1, c2, gs2, h1, h2, hcode, hgs'⟩ := callSeq_inv _ _ _ _ _ _ _ _ hgen
+  rw [callKind_po] at h2
+  have hlen : (optArgsOf G.rho args).length = args.length := by simp [optArgsOf]
+  obtain ⟨f1o, f1s, f1c, f1os⟩ := genCallActuals_facts _ _ _ _ _ h1
+  simp only at f1o f1s f1c f1os
+  obtain ⟨b1o, b1s, _, b1p, b1c⟩ := bumpN_facts (countCalls (optArgsOf G.rho args)) { gs1 with offset := gs.offset }
+  simp only at b1o b1s b1p b1c
+  obtain ⟨e2o, e2s, _, e2c⟩ := loadActuals_eff _ _ _ _ _ _ _ h2
+  subst hgs'
+  simp only [callKind_po, hlen] at hsz hci
+  subst hcode
+  simp only [lowerCode_append, List.append_assoc] at hat ⊢
+  have hpo := po_pos pj
+  have hb : gs2.size + (args.length + pj.po) ≤ G.S pi := Nat.le_trans (Nat.le_max_right _ _) hsz
+  have hrun := (hP pj.po).run st gs c1 gs1 c2 gs2 i a b mem h1 h2
+    (by have h := hat; rw [← List.append_assoc] at h; exact h.left) hr hb hnl hci
+  cases hev : X.evalArgs f G.xc args st with
+  | undef w => trivial
+  | exit c s =>
+    have hev' : X.evalArgs f (KOf G pi sp dep hi).xc args st = .exit c s := hev
+    rw [hev'] at hrun
+    exact hrun
+  | ok vs s =>
+    have hev' : X.evalArgs f (KOf G pi sp dep hi).xc args st = .ok vs s := hev
+    rw [hev'] at hrun
+    simp only
+    obtain ⟨a1, b1, mem1, st1, rep1, hvals, frm1⟩ := hrun
+    have hwl : vs.length = args.length := evalArgs_length G.xc args f st s vs hev
+    have hct := exec_calltail ok f (hcs f (Nat.le_refl _)) hpi hpj sp dep hi hlo hspv hstack s vs gs2.labelCount gs.offset
+      (i + (lowerCode G.cg c1).length + (lowerCode G.cg c2).length) a1 b1 mem1
+      (by have := hat.right.right; simpa [Nat.add_assoc] using this) rep1 (fun k hk => hvals k hk)
+      (by omega) (by omega) (by omega)
+    cases hx : X.callUser f G.xc pj.p vs s with
+    | undef w => trivial
+    | exit cd s' =>
+      rw [hx] at hct
+      obtain ⟨c, hs, he⟩ := hct
+      exact ⟨c, st1.trans hs, he⟩
+    | ok res s' =>
+      rw [hx] at hct
+      obtain ⟨a', b', mem', hs, rep', hres, frm3⟩ := hct
+      refine ⟨a', b', mem', ?_, rep', hres, frm1.trans frm3⟩
+      simp only [List.length_append, ← Nat.add_assoc]
+      exact st1.trans hs
+
+theorem ipE5_ipE (pk : Bool) (ps imp : List String) (ρ : String → Option Word) :
+    (e : X.Expr) → ipE5 pk ps imp ρ e = true → ipE ρ (fun _ => true) e = true
+  | .un _ x, h => by simp only [ipE5] at h; simp only [ipE]; exact ipE5_ipE pk ps imp ρ x h
+  | .bin op l r, h => by
+    simp only [ipE5, Bool.and_eq_true, Bool.or_eq_true] at h
+    simp only [ipE, Bool.and_eq_true, Bool.or_eq_true]
+    exact ⟨h.1, h.2.imp (fun hh => ⟨hh.1, ipE5_ipE pk ps imp ρ r hh.2⟩) (fun hh => ⟨ipE5_ipE pk ps imp ρ l hh.1, hh.2⟩)⟩
+  | .call _ _, _ => rfl
+  | .syscall _ _, _ => rfl
+  | .num _, h => by simp [ipE5] at h
+  | .bool _, h => by simp [ipE5] at h
+  | .name _, h => by simp [ipE5] at h
+  | .str _, h => by simp [ipE5] at h
+  | .sub _ _, h => by simp [ipE5] at h
+
 /-! ### The main theorem -/
 
 section
@@ -369,18 +853,39 @@ variable {G : GCtx} (ok : G.OK) {pi : PInfo} (hpi : pi ∈ G.procs) (sp dep : Na
     (hstack : G.spv ≤ sp + dep * G.smax) (F : Nat) (hcs : ∀ k, k < F → CallSpec G k)
 include ok hpi hlo hspv hstack hcs
 
-/-- **Expressions with one call of any callee**: whatever the evaluation gives - a value (in a new
-    state), termination, or nothing - the code does the same. -/
+mutual
+/-- **Expressions with one path of calls of any callee**: whatever the evaluation gives - a value
+    (in a new state), termination, or nothing - the code does the same. -/
 theorem expr_ip_correct : (e : X.Expr) → (fuel : Nat) → fuel ≤ F → (σ : X.St) →
-    ipE G.rho (callE5 G.pk G.pnames G.xc.impure G.rho) e = true →
+    ipE5 G.pk G.pnames G.xc.impure G.rho e = true →
     ExecX false (KOf G pi sp dep hi) (optExpr (annotate G.rho e)) σ (X.eval fuel G.xc e σ)
+  | .syscall id args, fuel, hF, σ, h => by
+    have hs : sysE G.rho (.syscall id args) = true := by simp only [ipE5] at h; simp only [sysE]; exact h
+    exact execX_sys (KOf G pi sp dep hi) (ok.wfs pi hpi sp dep hi hlo hspv).toWF _ hs fuel σ
   | .call g args, fuel, hF, σ, h => by
-    simp only [ipE] at h
-    obtain ⟨g', args', he, hg, hargs⟩ := callE5_inv _ _ _ _ _ h
-    cases he
+    simp only [ipE5, Bool.or_eq_true] at h
+    rcases h with h | h
+    rotate_left
+    · have hs : sysE G.rho (.call g args) = true := by simp only [sysE]; exact h
+      exact execX_sys (KOf G pi sp dep hi) (ok.wfs pi hpi sp dep hi hlo hspv).toWF _ hs fuel σ
+    simp only [Bool.and_eq_true, Bool.or_eq_true, List.contains_iff_mem] at h
+    obtain ⟨hg, hargs⟩ := h
+    have hA : ∀ f, f < fuel → ArgsOK G pi sp dep hi f args := by
+      intro f hf
+      rcases hargs with (hp | ⟨hpk, hpp⟩) | hone
+      · exact argsOK_pure ok hpi sp dep hi hlo hspv hstack f args (by simpa using hp)
+      · exact argsOK_pp ok hpi sp dep hi hlo hspv hstack (ok.pure_ok hpk) f
+          (fun k hk => callLeaf_of_spec ok (ok.pure_ok hpk) hpi sp dep hi hlo hspv hstack k (fun j hj => hcs j (by omega)))
+          args (by simpa using hpp)
+      · obtain ⟨pre, e, post, he, hpre, hpost, hipe, hE⟩ := args_one_correct args hone
+        apply argsOK_of_phase ok hpi sp dep hi hlo hspv hstack f args
+        intro po
+        rw [he]
+        exact actPhase_one (KOf G pi sp dep hi) (ok.wfs pi hpi sp dep hi hlo hspv).toWF po F (fun _ => true) pre e post
+          hpre hpost (ipE5_ipE _ _ _ _ e hipe) hE f (by omega)
     intro gs code gs' i a b mem hgen hat hr hsz hnl hci
     have := exec_callExprF ok fuel (fun k hk => hcs k (by omega)) hpi sp dep hi hlo hspv hstack g args hg
-      (fun f hf => argsOK_5 ok hpi sp dep hi hlo hspv hstack F hcs args hargs f (by omega)) σ gs code gs' i a b mem
+      hA σ gs code gs' i a b mem
       hgen hat hr hsz hnl hci
     cases hev : X.eval fuel G.xc (.call g args) σ with
     | undef w => trivial
@@ -391,13 +896,13 @@ theorem expr_ip_correct : (e : X.Expr) → (fuel : Nat) → fuel ≤ F → (σ :
       | arr r => trivial
       | int w => exact this
   | .un op x, fuel, hF, σ, h => by
-    simp only [ipE] at h
+    simp only [ipE5] at h
     cases fuel with
     | zero => obtain ⟨w, hw⟩ := eval_zero_undef G.xc (.un op x) σ; rw [hw]; exact ExecX.undef w
     | succ f =>
       have ih := expr_ip_correct x f (by omega)
-      have hcn := ip_const_none _ _ x h
-      obtain ⟨hnA, hnz⟩ := ip_opt_facts _ _ x h
+      have hcn := ip_const_none G.rho (fun _ => true) x (ipE5_ipE _ _ _ _ x h)
+      obtain ⟨hnA, hnz⟩ := ip_opt_facts G.rho (fun _ => true) x (ipE5_ipE _ _ _ _ x h)
       have wf := (ok.wfs pi hpi sp dep hi hlo hspv).toWF
       cases op with
       | neg =>
@@ -445,7 +950,8 @@ theorem expr_ip_correct : (e : X.Expr) → (fuel : Nat) → fuel ≤ F → (σ :
           rw [hv]
           exact this.toX
   | .bin op l r, fuel, hF, σ, h => by
-    simp only [ipE, Bool.and_eq_true, Bool.or_eq_true] at h
+    have hwhole := ipE5_ipE _ _ _ _ (.bin op l r) h
+    simp only [ipE5, Bool.and_eq_true, Bool.or_eq_true] at h
     obtain ⟨hop, hcase⟩ := h
     cases fuel with
     | zero => obtain ⟨w, hw⟩ := eval_zero_undef G.xc (.bin op l r) σ; rw [hw]; exact ExecX.undef w
@@ -453,8 +959,7 @@ theorem expr_ip_correct : (e : X.Expr) → (fuel : Nat) → fuel ≤ F → (σ :
       have wf := (ok.wfs pi hpi sp dep hi hlo hspv).toWF
       have htree : optExpr (annotate G.rho (.bin op l r))
           = rewriteBin op (optExpr (annotate G.rho l)) (optExpr (annotate G.rho r)) none := by
-        have hcn := ip_const_none G.rho (callE5 G.pk G.pnames G.xc.impure G.rho) (.bin op l r)
-          (by simp only [ipE, Bool.and_eq_true, Bool.or_eq_true]; exact ⟨hop, hcase⟩)
+        have hcn := ip_const_none G.rho (fun _ => true) (.bin op l r) hwhole
         simp only [annotate, AExpr.const_bin] at hcn ⊢
         rw [optExpr_bin, hcn]
         simp
@@ -466,7 +971,7 @@ theorem expr_ip_correct : (e : X.Expr) → (fuel : Nat) → fuel ≤ F → (σ :
           (X.eval (f + 1) G.xc (.bin op l r) σ) from hX gs code gs' i a b mem hgen hat hr hsz hnl hci
       rcases hcase with ⟨hcl, hir⟩ | ⟨hil, hcr⟩
       · -- the left operand is a constant, the right one has the call
-        obtain ⟨hnA, hnz⟩ := ip_opt_facts _ _ r hir
+        obtain ⟨hnA, hnz⟩ := ip_opt_facts G.rho (fun _ => true) r (ipE5_ipE _ _ _ _ r hir)
         have hnL := constL_needsA G.rho l hcl
         have hpl := constL_pure G.rho l hcl
         cases hev : X.eval (f + 1) G.xc (.bin op l r) σ with
@@ -502,7 +1007,7 @@ theorem expr_ip_correct : (e : X.Expr) → (fuel : Nat) → fuel ≤ F → (σ :
           rw [arith_rt op a0 b0 w hop har] at this
           exact this.toX
       · -- the left operand has the call, the right one is a constant
-        obtain ⟨hnA, hnz⟩ := ip_opt_facts _ _ l hil
+        obtain ⟨hnA, hnz⟩ := ip_opt_facts G.rho (fun _ => true) l (ipE5_ipE _ _ _ _ l hil)
         have hnR := constL_needsA G.rho r hcr
         have hpr := constL_pure G.rho r hcr
         cases hev : X.eval (f + 1) G.xc (.bin op l r) σ with
@@ -535,18 +1040,51 @@ theorem expr_ip_correct : (e : X.Expr) → (fuel : Nat) → fuel ≤ F → (σ :
             (fun hz => by rw [hnz] at hz; simp at hz) (fun hz _ _ => hRz hz) hop
           rw [arith_rt op a0 b0 w hop har] at this
           exact this.toX
-  | .num _, _, _, _, h => by simp [ipE] at h
-  | .bool _, _, _, _, h => by simp [ipE] at h
-  | .name _, _, _, _, h => by simp [ipE] at h
-  | .str _, _, _, _, h => by simp [ipE] at h
-  | .sub _ _, _, _, _, h => by simp [ipE] at h
-  | .syscall _ _, _, _, _, h => by simp [ipE] at h
+  | .num _, _, _, _, h => by simp [ipE5] at h
+  | .bool _, _, _, _, h => by simp [ipE5] at h
+  | .name _, _, _, _, h => by simp [ipE5] at h
+  | .str _, _, _, _, h => by simp [ipE5] at h
+  | .sub _ _, _, _, _, h => by simp [ipE5] at h
+/-- Actuals that are constants except one of the class: where it is, and its triple. -/
+theorem args_one_correct : (args : List X.Expr) → oneImp5 G.pk G.pnames G.xc.impure G.rho args = true →
+    ∃ pre e post, args = pre ++ e :: post ∧ (∀ c ∈ pre, isConstL G.rho c = true) ∧ (∀ c ∈ post, isConstL G.rho c = true) ∧
+      ipE5 G.pk G.pnames G.xc.impure G.rho e = true ∧
+      (∀ fuel, fuel ≤ F → ∀ σ, ExecX false (KOf G pi sp dep hi) (optExpr (annotate G.rho e)) σ (X.eval fuel G.xc e σ))
+  | [], h => by simp [oneImp5] at h
+  | a :: as, h => by
+    simp only [oneImp5, Bool.or_eq_true, Bool.and_eq_true, List.all_eq_true] at h
+    rcases h with ⟨ha, has⟩ | ⟨hca, has⟩
+    · exact ⟨[], a, as, rfl, fun c hc => by simp at hc, has, ha, fun fuel hf σ => expr_ip_correct a fuel hf σ ha⟩
+    · obtain ⟨pre, e, post, he, hpre, hpost, hipe, hE⟩ := args_one_correct as has
+      refine ⟨a :: pre, e, post, by simp [he], ?_, hpost, hipe, hE⟩
+      intro c hc
+      rcases List.mem_cons.mp hc with rfl | hc
+      · exact hca
+      · exact hpre c hc
+end
+
+/-- The actuals of a call of the class, at every fuel below `F`. -/
+theorem argsOK_5 (args : List X.Expr) (h : argsOk5 G.pk G.pnames G.xc.impure G.rho args = true) :
+    ∀ f, f < F → ArgsOK G pi sp dep hi f args := by
+  intro f hf
+  simp only [argsOk5, Bool.or_eq_true, Bool.and_eq_true, List.all_eq_true] at h
+  rcases h with (hp | ⟨hpk, hpp⟩) | hone
+  · exact argsOK_pure ok hpi sp dep hi hlo hspv hstack f args hp
+  · exact argsOK_pp ok hpi sp dep hi hlo hspv hstack (ok.pure_ok hpk) f
+      (fun k hk => callLeaf_of_spec ok (ok.pure_ok hpk) hpi sp dep hi hlo hspv hstack k (fun j hj => hcs j (by omega)))
+      args hpp
+  · obtain ⟨pre, e, post, he, hpre, hpost, hipe, hE⟩ := args_one_correct ok hpi sp dep hi hlo hspv hstack F hcs args hone
+    apply argsOK_of_phase ok hpi sp dep hi hlo hspv hstack f args
+    intro po
+    rw [he]
+    exact actPhase_one (KOf G pi sp dep hi) (ok.wfs pi hpi sp dep hi hlo hspv).toWF po F (fun _ => true) pre e post
+      hpre hpost (ipE5_ipE _ _ _ _ e hipe) hE f (by omega)
 
 /-- A condition with one call of any callee. -/
-theorem condOK_ip (c : X.Expr) (hip : ipE G.rho (callE5 G.pk G.pnames G.xc.impure G.rho) c = true) :
+theorem condOK_ip (c : X.Expr) (hip : ipE5 G.pk G.pnames G.xc.impure G.rho c = true) :
     CondOK (KOf G pi sp dep hi) F c := by
   have hX := expr_ip_correct ok hpi sp dep hi hlo hspv hstack F hcs c F (Nat.le_refl _)
-  have hcc := ip_containsCall G.rho _ c hip
+  have hcc := ip_containsCall G.rho (fun _ => true) c (ipE5_ipE _ _ _ _ c hip)
   refine ⟨?_, ?_, ?_, ?_⟩
   · intro st mem w s _ hev
     have hev' : X.eval F G.xc c st = .ok (.int w) s := hev
